@@ -56,6 +56,22 @@ class Poly(object):
     def divconst(self, c):
         return Poly(dict((k, v / Fraction(c)) for k, v in self.t.items()))
 
+    def divexact(self, o):
+        """exact division by a single-term polynomial; None if not exact"""
+        o = _p(o)
+        if len(o.t) != 1:
+            return None
+        (mono, coef), = o.t.items()
+        d = {}
+        for k, v in self.t.items():
+            m = dict(k)
+            for a, p_ in mono:
+                if m.get(a, 0) < p_:
+                    return None
+                m[a] -= p_
+            d[tuple(sorted((a, p_) for a, p_ in m.items() if p_ != 0))] = v / coef
+        return Poly(d)
+
     def is_const(self):
         return all(k == () for k in self.t)
 
@@ -140,6 +156,10 @@ def to_poly(e, env=None, atomize=None):
                     lc = l.constval()
                     if lc is not None:
                         return Poly.const(lc // c)
+                if isinstance(n.op, ast.FloorDiv):
+                    q = rec(n.left).divexact(r)
+                    if q is not None:
+                        return q
             if isinstance(n.op, ast.Pow):
                 r = rec(n.right).constval()
                 if r is not None and r.denominator == 1 and 0 <= r <= 6:
